@@ -445,4 +445,49 @@ theorem convert_adjacent (neg : Bool) (mant : BigNat) (base : Nat) (ex : Int) (h
         generalize (2 : Nat) ^ 31 = Q
         ring
 
+/-! ### transfer between two astronomically large / small exact values (used for over-long exponents) -/
+
+theorem ulps_le_inf (k : Nat) (hk : k ≤ infBits) : ulps k ≤ 2 ^ 52 * 2 ^ 2046 := by
+  rcases Nat.lt_or_ge k infBits with c | c
+  · have h1 := ulps_finite_le k c
+    have h2 := dblmax_lt_inf
+    omega
+  · have : k = infBits := Nat.le_antisymm hk c
+    rw [this, ulps_inf]
+
+/-- a result adjacent to a value at or above the overflow threshold is the overflow pattern, which is adjacent to every
+    such value -/
+theorem Adjacent.huge_transfer {mag N D N' D' : Nat} (h : Adjacent mag N D)
+    (hN : 2 ^ 52 * 2 ^ 2046 * D ≤ N) (hN' : 2 ^ 52 * 2 ^ 2046 * D' ≤ N') (hD' : 0 < D') : Adjacent mag N' D' := by
+  obtain ⟨hle, hb, ha⟩ := h
+  have hmag : 2 ^ 52 * 2 ^ 2046 ≤ ulps mag := by
+    by_contra hc
+    have hlt : ulps mag < ulps infBits := by rw [ulps_inf]; omega
+    have := ha infBits (le_refl _) hlt
+    rw [ulps_inf] at this
+    omega
+  refine ⟨hle, fun k hk hu => ?_, fun k hk hu => ?_⟩
+  · have h1 := ulps_le_inf mag hle
+    have h2 : ulps k < 2 ^ 52 * 2 ^ 2046 := by omega
+    calc ulps k * D' < 2 ^ 52 * 2 ^ 2046 * D' := Nat.mul_lt_mul_of_pos_right h2 hD'
+      _ ≤ N' := hN'
+  · have := ulps_le_inf k hk
+    omega
+
+/-- a result adjacent to a positive value below one ulp (±0 or the smallest subnormal) is adjacent to every such value -/
+theorem Adjacent.tiny_transfer {mag N D N' D' : Nat} (h : Adjacent mag N D)
+    (hN : N < D) (hN0 : 0 < N') (hN' : N' < D') : Adjacent mag N' D' := by
+  obtain ⟨hle, hb, ha⟩ := h
+  refine ⟨hle, fun k hk hu => ?_, fun k hk hu => ?_⟩
+  · have h1 := hb k hk hu
+    have h0 : ulps k = 0 := by
+      by_contra hc
+      have : 1 * D ≤ ulps k * D := Nat.mul_le_mul_right D (by omega)
+      omega
+    rw [h0, Nat.zero_mul]; exact hN0
+  · have h1 : 1 ≤ ulps k := by omega
+    calc N' < D' := hN'
+      _ = 1 * D' := (Nat.one_mul _).symm
+      _ ≤ ulps k * D' := Nat.mul_le_mul_right D' h1
+
 end JanetModel.Strtod
